@@ -308,28 +308,34 @@ func matchNames(pkg *types.Package) *NameMap {
 			fresh[n] = true
 		}
 	}
-	shape := func(t BaselineType, unknown map[string]bool) string {
+	shape := func(t BaselineType, unknown map[string]bool, m map[string]string) string {
 		if t.Fields == nil {
-			return "U:" + rewriteIdents(t.Underlying, nil, unknown)
+			return "U:" + rewriteIdents(t.Underlying, m, unknown)
 		}
 		var fs []string
 		for _, f := range t.Fields {
-			fs = append(fs, rewriteIdents(f.Type, nil, unknown))
+			fs = append(fs, rewriteIdents(f.Type, m, unknown))
 		}
 		sort.Strings(fs)
 		return "S:" + strings.Join(fs, ";")
 	}
-	for _, bn := range sortedKeys(missing) {
-		var cands []string
-		for _, cn := range sortedKeys(fresh) {
-			if shape(baseTypes[bn], missing) == shape(curTypes[cn], fresh) {
-				cands = append(cands, cn)
+	// to a fixed point: pairing one type can make the shapes of others comparable
+	for changed := true; changed; {
+		changed = false
+		for _, bn := range sortedKeys(missing) {
+			var cands []string
+			for _, cn := range sortedKeys(fresh) {
+				if shape(baseTypes[bn], missing, nil) == shape(curTypes[cn], fresh, nm.TypeCanon) {
+					cands = append(cands, cn)
+				}
 			}
-		}
-		if len(cands) == 1 {
-			nm.TypeCanon[cands[0]], nm.TypeCur[bn] = bn, cands[0]
-			nm.Renames = append(nm.Renames, "type "+bn+" -> "+cands[0])
-			delete(fresh, cands[0])
+			if len(cands) == 1 {
+				nm.TypeCanon[cands[0]], nm.TypeCur[bn] = bn, cands[0]
+				nm.Renames = append(nm.Renames, "type "+bn+" -> "+cands[0])
+				delete(fresh, cands[0])
+				delete(missing, bn)
+				changed = true
+			}
 		}
 	}
 	canonT := func(s string) string { return rewriteIdents(s, nm.TypeCanon, nil) }
